@@ -11,6 +11,77 @@ fn dbg<T: std::fmt::Debug>(r: &T) -> usize {
     crate::guard::unmetered(|| format!("{:?}", r).len())
 }
 
+// Display of a value if (and only if) its type implements it: autoref specialisation, so the
+// harness keeps compiling whether or not a newtype has (or later gains) a hand-written Display
+pub struct Probe<'a, T>(pub &'a T);
+pub trait ViaDisplay {
+    fn probe(&self) -> usize;
+}
+impl<'a, T: std::fmt::Display> ViaDisplay for Probe<'a, T> {
+    fn probe(&self) -> usize {
+        format!("{}", self.0).len()
+    }
+}
+pub trait ViaNothing {
+    fn probe(&self) -> usize {
+        0
+    }
+}
+impl<'a, T> ViaNothing for &Probe<'a, T> {}
+macro_rules! disp {
+    ($e:expr) => {{
+        #[allow(unused_imports)]
+        use crate::allparsers::{ViaDisplay, ViaNothing};
+        (&crate::allparsers::Probe(&$e)).probe()
+    }};
+}
+
+/// `{}` / `{:?}` of every registry newtype nested in a returned message
+fn nested_message(m: &TlsMessage) -> usize {
+    crate::guard::unmetered(|| match m {
+        TlsMessage::Handshake(h) => match h {
+            TlsMessageHandshake::ClientHello(c) => disp!(c.version) + c.comp.iter().take(300).map(|x| disp!(*x) + format!("{:?}", x).len()).sum::<usize>() + c.ciphers.iter().take(8).map(|x| disp!(*x)).sum::<usize>(),
+            TlsMessageHandshake::ServerHello(c) => disp!(c.version) + disp!(c.compression) + disp!(c.cipher) + format!("{:?}", c.compression).len(),
+            TlsMessageHandshake::ServerHelloV13Draft18(c) => disp!(c.version) + disp!(c.cipher),
+            TlsMessageHandshake::HelloRetryRequest(c) => disp!(c.version) + disp!(c.cipher),
+            _ => 0,
+        },
+        TlsMessage::Alert(a) => disp!(a.severity) + disp!(a.code),
+        TlsMessage::Heartbeat(h) => disp!(h.heartbeat_type) + format!("{:?}", h.heartbeat_type).len(),
+        _ => 0,
+    })
+}
+
+fn nested_dtls(m: &DTLSMessage) -> usize {
+    crate::guard::unmetered(|| match m {
+        DTLSMessage::Handshake(h) => {
+            disp!(h.msg_type)
+                + format!("{:?}", h.msg_type).len()
+                + match &h.body {
+                    DTLSMessageHandshakeBody::ClientHello(c) => disp!(c.version) + c.comp.iter().take(300).map(|x| disp!(*x)).sum::<usize>(),
+                    DTLSMessageHandshakeBody::ServerHello(c) => disp!(c.version) + disp!(c.compression) + disp!(c.cipher),
+                    DTLSMessageHandshakeBody::HelloVerifyRequest(v) => disp!(v.server_version),
+                    _ => 0,
+                }
+        }
+        DTLSMessage::Alert(a) => disp!(a.severity) + disp!(a.code),
+        DTLSMessage::Heartbeat(h) => disp!(h.heartbeat_type),
+        _ => 0,
+    })
+}
+
+fn nested_ext(e: &TlsExtension) -> usize {
+    crate::guard::unmetered(|| match e {
+        TlsExtension::SNI(v) => v.iter().take(300).map(|(t, _)| disp!(*t)).sum(),
+        TlsExtension::StatusRequest(Some((t, _))) => disp!(*t) + format!("{:?}", t).len(),
+        TlsExtension::EllipticCurves(v) => v.iter().take(300).map(|g| disp!(*g)).sum(),
+        TlsExtension::SupportedVersions(v) => v.iter().take(300).map(|g| disp!(*g)).sum(),
+        TlsExtension::EncryptedServerName { ciphersuite, group, .. } => disp!(*ciphersuite) + disp!(*group),
+        TlsExtension::Unknown(t, _) => disp!(*t),
+        _ => 0,
+    })
+}
+
 macro_rules! simple {
     ($name:ident) => {
         (stringify!($name), |i: &[u8], _n: usize| dbg(&$name(i)))
@@ -35,7 +106,10 @@ pub const ALL: &[Entry] = &[
         Ok((_, h)) => format!("{:?} {} {}", h, h.content_type, h.version).len(),
         Err(e) => dbg(&e),
     }),
-    simple!(parse_dtls_message_handshake),
+    ("parse_dtls_message_handshake", |i, _| match parse_dtls_message_handshake(i) {
+        Ok((_, m)) => dbg(&m) + nested_dtls(&m),
+        Err(e) => dbg(&e),
+    }),
     simple!(parse_dtls_message_changecipherspec),
     simple!(parse_dtls_message_alert),
     ("parse_dtls_record_with_header", |i, n| {
@@ -46,7 +120,10 @@ pub const ALL: &[Entry] = &[
         }
         t
     }),
-    simple!(parse_dtls_plaintext_record),
+    ("parse_dtls_plaintext_record", |i, _| match parse_dtls_plaintext_record(i) {
+        Ok((_, r)) => dbg(&r) + r.messages.iter().take(50).map(nested_dtls).sum::<usize>() + disp!(r.header.content_type) + disp!(r.header.version),
+        Err(e) => dbg(&e),
+    }),
     simple!(parse_dtls_plaintext_records),
     // dh / ec
     simple!(parse_dh_params),
@@ -101,7 +178,7 @@ pub const ALL: &[Entry] = &[
         Err(e) => dbg(&e),
     }),
     ("parse_tls_extension", |i, _| match parse_tls_extension(i) {
-        Ok((_, e)) => format!("{:?} {}", e, TlsExtensionType::from(&e)).len(),
+        Ok((_, e)) => format!("{:?} {}", e, TlsExtensionType::from(&e)).len() + nested_ext(&e),
         Err(e) => dbg(&e),
     }),
     simple!(parse_tls_client_hello_extensions),
@@ -151,7 +228,10 @@ pub const ALL: &[Entry] = &[
     simple!(parse_tls_handshake_next_protocol),
     simple!(parse_tls_handshake_msg_next_protocol),
     simple!(parse_tls_handshake_msg_key_update),
-    simple!(parse_tls_message_handshake),
+    ("parse_tls_message_handshake", |i, _| match parse_tls_message_handshake(i) {
+        Ok((_, m)) => dbg(&m) + nested_message(&m),
+        Err(e) => dbg(&e),
+    }),
     // messages
     simple!(parse_tls_message_changecipherspec),
     ("parse_tls_message_alert", |i, _| match parse_tls_message_alert(i) {
@@ -175,7 +255,10 @@ pub const ALL: &[Entry] = &[
         }
         t
     }),
-    simple!(parse_tls_plaintext),
+    ("parse_tls_plaintext", |i, _| match parse_tls_plaintext(i) {
+        Ok((_, r)) => dbg(&r) + r.msg.iter().take(50).map(nested_message).sum::<usize>() + disp!(r.hdr.record_type) + disp!(r.hdr.version),
+        Err(e) => dbg(&e),
+    }),
     simple!(parse_tls_encrypted),
     simple!(parse_tls_raw_record),
     simple!(tls_parser),
